@@ -199,6 +199,10 @@ class Ref:
                 visit(ns + (tuple(u['as'].split('::')) if u.get('as') else ()), ufile, u.get('part'))
 
         visit(root_ns, self.root['file'], self.root.get('part'))
+        if self.root.get('config_name'):
+            # the caller named the root config explicitly: that name (not the file stem) is its name, e.g. for name-mode file names
+            rinst = next(iter(self.instances.values()))
+            rinst['name'] = self.root['config_name'] + (f"#{rinst['part']}" if rinst['part'] else '')
 
     @staticmethod
     def _config_name(file, part):
